@@ -126,4 +126,5 @@ def run(functions=None, modules=None, timeout_ms=10000, verbose=True):
 
 if __name__ == "__main__":
     fns = sys.argv[1:] or None
-    run(fns)
+    from . import bigstack
+    bigstack.run(run, fns)
